@@ -73,7 +73,7 @@ def handler(job):
         f = getattr(persim, fn)
         _verif.drain()
         with warnings.catch_warnings(record=True) as w:
-            warnings.simplefilter("always")
+            warnings.simplefilter("always", append=True)       # (appended: a filter the package installs in front still applies, as it does for a user)
             d = f(S, T)
         evs = _verif.drain()
         out["dist"] = fl(d)
